@@ -219,6 +219,52 @@ pub fn run(tier: &str) -> i32 {
                 }),
             ));
         }
+        // (7b) the backend's close() itself fails: still exactly one call, nothing afterwards
+        for variant in 0..3u8 {
+            let img = im.clean.clone();
+            let cfg = im.cfg;
+            jobs.push((
+                format!("close-fails/variant{variant}"),
+                Box::new(move || {
+                    let backend = MemBackend::from_image(img.clone());
+                    backend.lock().fail_close = true;
+                    let b = backend.clone();
+                    let out = par::guarded(move || -> Result<String, String> {
+                        let db = cfg.open(b.clone()).map_err(|e| e.to_string())?;
+                        let t: TableDefinition<u64, &[u8]> = TableDefinition::new("t");
+                        match variant {
+                            0 => {
+                                drop(db);
+                                Ok("plain-drop".into())
+                            }
+                            1 => {
+                                let wt = db.begin_write().map_err(|e| e.to_string())?;
+                                drop(db);
+                                {
+                                    let mut tab = wt.open_table(t).map_err(|e| e.to_string())?;
+                                    tab.insert(778u64, &[8u8; 20][..]).map_err(|e| e.to_string())?;
+                                }
+                                let _ = wt.commit();
+                                Ok("deferred-close".into())
+                            }
+                            _ => {
+                                let rt = db.begin_read().map_err(|e| e.to_string())?;
+                                drop(db);
+                                let _ = rt.open_table(t).map(|tab| tab.get(10u64).map(|g| g.map(|g| g.value().len())));
+                                drop(rt);
+                                Ok("reader-outlives".into())
+                            }
+                        }
+                    })
+                    .map_err(|p| format!("panic: {p}"))??;
+                    let cv = backend.final_contract();
+                    if !cv.is_empty() {
+                        return Err(format!("{out}, close() returns an error: {}", cv.join("; ")));
+                    }
+                    Ok(out)
+                }),
+            ));
+        }
         // (8) Database dropped while a write transaction / readers are alive
         for variant in 0..6u8 {
             let img = im.clean.clone();
